@@ -211,17 +211,17 @@ def _plan(tier):
     rich = dict(refnames=("A", "B", "E", "S", "Ha", "Hb", "Hc"), slots=("f1", "f2", "x"))
     if tier == "thorough":
         return [
-            ("bfs2_chain", _cfg(maxlen=2, inits=("chain",), reqs=("present",), view="trans"), None, None, 4000),
-            ("bfs2_public", _cfg(maxlen=2, inits=("public",), reqs=("present", "a"), view="trans", **small), None, None, 2000),
-            ("bfs2_hole_cycle", _cfg(maxlen=2, inits=("hole", "cycle"), reqs=("present",), view="trans", **small), None, None, 2000),
+            ("bfs2_chain", _cfg(maxlen=2, inits=("chain",), reqs=("present",), view="trans"), None, None, 3000),
+            ("bfs2_public", _cfg(maxlen=2, inits=("public",), reqs=("present", "a"), view="trans", **small), None, None, 1500),
+            ("bfs2_hole_cycle", _cfg(maxlen=2, inits=("hole", "cycle"), reqs=("present",), view="trans", **small), None, None, 1500),
             ("bfs3_decls", _cfg(maxlen=3, inits=("late", "twins"), reqs=("present",), view="full", decls="ABES", refnames=("A",),
-                                slots=("f1",), defects=("unknown",), edits=DECL_EDITS), None, None, 4000),
+                                slots=("f1",), defects=("unknown",), edits=DECL_EDITS), None, None, 3000),
             ("sim_long", _cfg(files="abcd", maxlen=24, inits=("chain", "public", "flat", "hole", "cycle", "twins", "late"),
-                              reqs=("present", "a", "all"), runs=("TRUE", "FALSE"), view="full", exportat="end", **rich), 250, 26, None),
+                              reqs=("present", "a", "all"), runs=("TRUE", "FALSE"), view="full", exportat="end", **rich), 200, 26, None),
         ]
     return [
         ("bfs2", _cfg(maxlen=2, inits=("hole", "twins"), reqs=("present",), view="trans", allowself=False, decls="AB",
-                      refnames=("A",), slots=("f1",), defects=("unknown",), maximports=1), None, None, 300),
+                      refnames=("A",), slots=("f1",), defects=("unknown",)), None, None, 300),
         ("sim", _cfg(files="abcd", maxlen=12, inits=("chain", "public", "cycle", "late"), reqs=("present", "a"),
                      runs=("TRUE", "FALSE"), view="full", exportat="end", **rich), 14, 14, None),
     ]
